@@ -19,6 +19,7 @@ from __future__ import annotations
 import collections
 import json
 import os
+import time
 
 from ..core import Ctx, generic_replay
 from ..tlc import MachineryError
@@ -54,7 +55,7 @@ PENDING_FINDINGS = [
      "what": "update_binwise_positions: two variants mapping to the same bin ('equally-spaced fractional positions are "
              "used') raise UFuncTypeError: float increments are added in place to the int64 searchsorted result; "
              "plots.py:188-192"},
-    {"id": "F-X05-binwise-variant-next-bin", "status": "open", "property": "X05", "clauses": ["bb_var_in_own_bin"],
+    {"id": "F-X05-binwise-variant-next-bin", "status": "open", "property": "X05", "clauses": ["bb_var_in_own_bin", "bb_var_fractional"],
      "trigger": "VariantInsideBin", "ops": ["binwise"],
      "what": "update_binwise_positions: a variant strictly inside bin k (not at its start) gets bin-wise position k+1 "
              "(searchsorted side='left' on bin starts), i.e. it is drawn over the NEXT bin; a variant in the last bin lands "
@@ -69,6 +70,11 @@ PENDING_FINDINGS = [
      "what": "do_heatmap genome-wide: chrom_sizes[chrom] = max(end, chrom_sizes.get(r_chrom, 0)) looks up r_chrom (None) "
              "instead of chrom, so each chromosome's size is the LAST sample's end, not the maximum: an earlier, longer "
              "sample is drawn across the divider into the next chromosome's slot; heatmap.py:100-102"},
+    {"id": "F-X05-heatmap-two-intervals-pandas3", "status": "open", "property": "X05", "clauses": ["hm_noerr"],
+     "trigger": "TwoIntervalsGap", "ops": ["heatmap"],
+     "what": "do_heatmap with exactly two distinct, non-abutting intervals to draw raises ValueError 'range() arg 3 must not be "
+             "zero' under pandas 3: log2_df.loc[0.5, :] = ... on a 2-row RangeIndex (RangeIndex.insert halves the step); "
+             "heatmap.py:164"},
     {"id": "F-X05-bybin-gene-window-ignored", "status": "open", "property": "X05", "clauses": ["sel_gene_window"],
      "trigger": "ByBinGeneOnly", "ops": ["select"],
      "what": "scatter --by-bin -g GENE (no -c): do_scatter replaces show_range by Region(None, None, None), a non-empty "
@@ -124,3 +130,397 @@ def mc_inputs(ctx, name, ops, max_coord, nchrom, max_rows, wide, naming=0, timeo
     ctx.notes[f"scope-{name}"] = {"ops": list(ops), "MaxCoord": max_coord, "NChrom": nchrom, "MaxRows": max_rows, "Wide": wide,
                                   "tlc_states": r.distinct, "replayed": len(inputs)}
     return inputs
+
+
+# ------------------------------------------------------------------------------------------------ direction 2: generators
+GENE_POOL = ["TP53", "BRAF", "MET", "CDK4", "MDM2", "TERT", "EGFR"]
+
+
+def rand_bins(rng, nchrom, nbins, span):
+    """Sorted, disjoint bins on chromosomes 1..nchrom; genes come in runs; some multi-name, ignored and antitarget labels."""
+    rows = []
+    for c in range(1, nchrom + 1):
+        n = rng.randint(1, nbins)
+        cuts = sorted(rng.sample(range(0, span), min(2 * n, span)))
+        pos = 0
+        gene = [rng.choice(GENE_POOL)]
+        k = 0
+        while k + 1 < len(cuts):
+            s, e = cuts[k], cuts[k + 1]
+            k += rng.choice([1, 2, 2])          # abutting bins or a gap
+            if e <= s or s < pos:
+                continue
+            if rng.random() < 0.35:
+                r = rng.random()
+                gene = (["-"] if r < 0.15 else ["Antitarget"] if r < 0.35 else
+                        sorted(rng.sample(GENE_POOL, 2)) if r < 0.5 else [rng.choice(GENE_POOL)])
+            rows.append([c, s, e, list(gene), rng.randint(-24, 24)])
+            pos = e
+    return rows
+
+
+def segs_of(rng, bins, tiling=True):
+    """Segments over the bins of each chromosome, cut at bin boundaries (tiling) or with perturbed ends."""
+    out = []
+    for c in sorted({r[0] for r in bins}):
+        rows = [r for r in bins if r[0] == c]
+        k = 0
+        while k < len(rows):
+            m = rng.randint(1, len(rows) - k)
+            grp = rows[k:k + m]
+            s, e, p = grp[0][1], grp[-1][2], len(grp)
+            if not tiling:
+                r = rng.random()
+                if r < 0.3 and grp[0][2] - s > 1:
+                    s += 1                                   # starts inside its first bin
+                elif r < 0.5:
+                    p = max(0, p + rng.choice([-1, 1]))      # probes off by one
+            names = []
+            for g in grp:
+                for nm in g[3]:
+                    if nm not in names:
+                        names.append(nm)
+            out.append([c, s, e, names if rng.random() < 0.7 else ["-"], rng.choice([-16, -8, -2, 0, 0, 3, 8, 12]), p])
+            k += m
+            if not tiling and rng.random() < 0.2:
+                k += 1                                       # bins between two segments belong to none
+    return out
+
+
+def vars_of(rng, bins, n, share=0.4):
+    out = []
+    for _ in range(n):
+        b = rng.choice(bins)
+        r = rng.random()
+        if out and r < share:
+            p = out[-1]
+            b = next(x for x in bins if x[0] == p[0] and x[1] <= p[1] < x[2]) if any(
+                x[0] == p[0] and x[1] <= p[1] < x[2] for x in bins) else b
+            s = rng.randint(b[1], b[2] - 1)
+        elif r < share + 0.2:
+            s = b[1]                                         # exactly at a bin start
+        elif r < share + 0.3:
+            s = b[2] + rng.randint(0, 3)                     # just after a bin (maybe in a gap)
+        else:
+            s = rng.randint(b[1], b[2] - 1)
+        out.append([b[0], s, s + 1, rng.randint(1, 63)])
+    out.sort(key=lambda v: (v[0], v[1]))
+    ded = []
+    for v in out:                                            # distinct positions (a VCF has one row per site here)
+        if not ded or ded[-1][:2] != v[:2]:
+            ded.append(v)
+    return ded
+
+
+def rand_region(rng, bins, nchrom_names=3):
+    """A region relative to the data: none / chromosome / closed / open-ended / dash, as text or tuple."""
+    base = {"rk": "none", "rtext": False, "rc": 1, "rhs": False, "rs": 0, "rhe": False, "re": 0}
+    r = rng.random()
+    if r < 0.15 or not bins:
+        return base
+    b = rng.choice(bins)
+    same = [x for x in bins if x[0] == b[0]]
+    base["rc"] = b[0] if rng.random() < 0.93 else rng.randint(1, nchrom_names)
+    base["rtext"] = rng.random() < 0.7
+    if r < 0.3:
+        base["rk"] = "chrom"
+        return base
+    base["rk"] = "range"
+    lo = rng.choice(same)
+    hi = rng.choice(same)
+    s = rng.choice([lo[1], lo[1] + 1, max(0, lo[1] - 1), (lo[1] + lo[2]) // 2, 0])
+    e = rng.choice([hi[2], hi[2] - 1, hi[2] + 1, hi[1], (hi[1] + hi[2]) // 2 + 1, same[-1][2] + 5])
+    if e <= s:
+        s, e = min(s, e), max(s, e) + 1
+    k = rng.random()
+    if k < 0.6:
+        base.update(rhs=True, rs=s, rhe=True, re=e)
+    elif k < 0.75:
+        base.update(rhe=True, re=max(1, e))
+    elif k < 0.9:
+        base.update(rhs=True, rs=s)
+    else:
+        base["rtext"] = True                                 # "chr:-"
+    return base
+
+
+def rand_label_text(rng):
+    chrom = rng.choice(["chr1", "1", "chrX", "chr1_gl000191_random", "HLA-A", "chr1.2", "", "c"])
+    a = rng.choice(["", "1", "0", "100", "007", str(rng.randint(1, 10**9 - 1))])
+    b = rng.choice(["", "5", "123", str(rng.randint(1, 10**9 - 1))])
+    tail = rng.choice(["", "", "", " BRAF", "\tMET,TP53", "x", " ", "  a b"])
+    form = rng.random()
+    if form < 0.7:
+        t = f"{chrom}:{a}-{b}{tail}"
+    elif form < 0.8:
+        t = f"{chrom}:{a}_{b}"
+    elif form < 0.9:
+        t = chrom or "chr2"
+    else:
+        t = "".join(rng.choice("c1:- .x") for _ in range(rng.randint(0, 9)))
+    return [ord(ch) for ch in t]
+
+
+def random_inputs(ctx, per_op):
+    rng = ctx.rng
+    out = []
+
+    def add(op, **kw):
+        kw["op"] = op
+        kw["naming"] = rng.choice([0, 0, 1, 2])
+        out.append(kw)
+
+    for _ in range(per_op):
+        span = rng.choice([60, 2000, 200000])
+        bins = rand_bins(rng, rng.choice([1, 2, 3]), rng.choice([2, 5, 12]), span)
+        segs = segs_of(rng, bins, tiling=rng.random() < 0.6) if bins else []
+        va = vars_of(rng, bins, rng.choice([0, 1, 3, 8])) if bins else []
+        reg = rand_region(rng, bins)
+        # --- labels
+        add("from_label", text=rand_label_text(rng), keep=rng.random() < 0.5)
+        kind = rng.choice(["text", "text", "text", "tuple3", "tuple4", "list3", "tuple2", "int", "none", "empty_str"])
+        add("unpack_range", kind=kind, text=rand_label_text(rng) if kind == "text" else [],
+            tc=[ord(ch) for ch in rng.choice(["chr1", "X", ""])], ts=rng.randint(0, 10**6), te=rng.randint(0, 10**9))
+        if out[-1]["kind"] == "text" and not out[-1]["text"]:
+            out[-1]["kind"] = "empty_str"
+        add("roundtrip", chrom=[ord(ch) for ch in rng.choice(["chr1", "1", "chrX", "chrUn_gl000211", "HLA-A", "chr1.2", "c d"])],
+            s=rng.choice([0, 1, 99, rng.randint(0, 2 * 10**9)]), e=rng.choice([0, 1, 123, rng.randint(0, 2 * 10**9)]))
+        # --- layout
+        shuffled = list(bins)
+        if rng.random() < 0.3:
+            rng.shuffle(shuffled)
+        add("chrom_sizes", a=shuffled, mb=rng.random() < 0.3)
+        ids = rng.sample([1, 2, 3, 4], rng.randint(0, 4))
+        add("dividers", sizes=[[c, rng.choice([0, 1, 17, rng.randint(1, 70000)])] for c in ids],
+            hp=rng.random() < 0.5, pad=rng.choice([0, 1, 1, 50]), along=rng.choice(["x", "x", "y", "z", ""]))
+        small = [b for b in bins if b[2] <= 250000]
+        add("genome_layout", hb=rng.random() < 0.85, a=small, hsg=rng.random() < 0.6,
+            sg=[s for s in segs if s[2] <= 250000])
+        # --- by-bin
+        add("region_to_bins", a=bins, **reg)
+        add("binwise", a=bins, hsg=rng.random() < 0.7, sg=segs, hv=rng.random() < 0.7, va=va)
+        if rng.random() < 0.5:
+            add("simple", kind="bins", t=bins)
+        else:
+            add("simple", kind="segs", t=[s[:5] + [rng.choice([0, 1, 2, s[5]])] for s in segs])
+        add("segs_to_bins", a=bins, sg=segs, hp=rng.random() < 0.7)
+        vals = []
+        while len(vals) < rng.choice([0, 1, 4, 12, 30]):
+            vals += [rng.randint(0, 5)] * rng.choice([1, 1, 1, 2, 3, 5])
+        add("repeat_slices", vals=vals)
+        add("cvg2rgb", k=rng.choice([0, 1, -1, 1361, 1362, -1361, -1362, 2048, -2048, rng.randint(-2048, 2048)]),
+            desat=rng.random() < 0.5)
+        # --- genes
+        present = sorted({nm for b in bins for nm in b[3]})
+        names = rng.sample(present, min(len(present), rng.choice([0, 1, 1, 2, 3]))) if present else []
+        if rng.random() < 0.15:
+            names.append("NOSUCH")
+        if rng.random() < 0.15:
+            names.append("")
+        if rng.random() < 0.1 and names:
+            names.append(names[0])
+        add("genes_by_name", a=bins, names=names)
+        rr = rand_region(rng, bins)
+        while rr["rk"] != "range":
+            rr = rand_region(rng, bins or [[1, 0, 10, ["A"], 0]])
+        add("genes_by_range", a=bins, c=rr["rc"], hs=rr["rhs"], s=rr["rs"], he=rr["rhe"], e=rr["re"])
+        # --- scatter selection
+        hg = rng.random() < 0.55
+        gsel = []
+        if hg:
+            k = rng.random()
+            if k < 0.12:
+                gsel = rng.choice([[], ["", ""], [""]])
+            else:
+                same = [nm for b in bins if b[0] == reg["rc"] for nm in b[3] if nm not in ("-", "Antitarget")]
+                pool = same if (same and rng.random() < 0.7) else [nm for nm in present if nm not in ("-",)]
+                gsel = rng.sample(sorted(set(pool)), min(len(set(pool)), rng.choice([1, 1, 2, 3]))) if pool else ["NOSUCH"]
+                if rng.random() < 0.08:
+                    gsel.append("NOSUCH")
+        bybin = rng.random() < 0.3
+        sreg = reg if rng.random() < 0.75 else dict(reg, rk="none")
+        add("select", hb=rng.random() < 0.88, a=bins, hsg=rng.random() < 0.6, sg=segs, hv=rng.random() < 0.5, va=va,
+            hg=hg, names=gsel, w=0 if bybin else rng.choice([0, 1, 7, span // 10, 1000000]), bybin=bybin, **sreg)
+        add("seg_color", ck=rng.randint(1, 3), pref=rng.random() < 0.5, hcn=rng.random() < 0.8, cn=rng.randint(0, 5),
+            hal=rng.random() < 0.6, cn1=rng.randint(0, 3), cn2=rng.randint(0, 2), bright=rng.random() < 0.5)
+        c1 = [b for b in bins if b[0] == 1]
+        add("seg_vafs", va=[v for v in vars_of(rng, c1, rng.choice([0, 2, 6, 14]), share=0.6)] if c1 else [],
+            hsg=rng.random() < 0.7, sg=[s for s in segs_of(rng, c1, tiling=rng.random() < 0.5)] if c1 else [])
+        # --- diagram
+        dreg = rng.choice([dict(reg, rk="none"), dict(reg, rk="none"), dict(reg, rk="chrom"), reg])
+        add("diagram", hb=rng.random() < 0.7, a=bins, hsg=rng.random() < 0.6, sg=segs, thr8=rng.choice([0, 2, 4, 8]),
+            minp=rng.choice([0, 1, 2, 3]), labels=rng.random() < 0.8, km=[], sq=[], **dreg)
+        # --- heatmap
+        samples = []
+        for _k in range(rng.choice([1, 2, 2, 3])):
+            t = [list(b) for b in bins]
+            if rng.random() < 0.5 and len(t) > 1:                          # another sample: edge bins dropped / other values
+                drop = rng.choice(["last", "first", "mid", "chrom"])
+                if drop == "last":
+                    t = t[:-1]
+                elif drop == "first":
+                    t = t[1:]
+                elif drop == "mid":
+                    t.pop(rng.randrange(len(t)))
+                else:
+                    cc = rng.choice(t)[0]
+                    t = [b for b in t if b[0] != cc] or t
+            t = [b[:4] + [rng.randint(-16, 16)] for b in t]
+            if rng.random() < 0.45:
+                samples.append([True, segs_of(rng, t, tiling=True)])
+            else:
+                samples.append([False, t])
+        hreg = rng.choice([dict(reg, rk="none"), dict(reg, rk="none"), reg])
+        add("heatmap", samples=samples, bybin=rng.random() < 0.35, vertical=rng.random() < 0.25, **hreg)
+    return out
+
+
+def structured_inputs():
+    """The documented examples and the boundary inputs named in the task, as fixed cases."""
+    txt = lambda s: [ord(ch) for ch in s]                              # noqa: E731
+    out = []
+    for t in ["chr1:1234-5678", "chr1:1234-", "chr1:-5678", "chr1:-", "chr1", "chr1:100-123", "chr1:2333000-2444000",
+              "chr7:140434347-140624540", "chrY:-", "chr5:-4000000", "chr7:140000000-", "chr12:50000000-80000000 CDK4"]:
+        out.append({"op": "from_label", "text": txt(t), "keep": True, "naming": 0})
+        out.append({"op": "from_label", "text": txt(t), "keep": False, "naming": 0})
+        out.append({"op": "unpack_range", "kind": "text", "text": txt(t), "tc": [], "ts": 0, "te": 0, "naming": 0})
+    out.append({"op": "unpack_range", "kind": "tuple3", "text": [], "tc": txt("chr1"), "ts": 100, "te": 123, "naming": 0})
+    bins = [[1, 0, 10, ["A"], 4], [1, 10, 20, ["B"], 0], [1, 20, 30, ["A"], -4], [1, 40, 50, ["Antitarget"], 0], [2, 5, 15, ["C"], 8]]
+    none = {"rk": "none", "rtext": False, "rc": 1, "rhs": False, "rs": 0, "rhe": False, "re": 0}
+    sel = {"op": "select", "hb": True, "a": bins, "hsg": False, "sg": [], "hv": False, "va": [], "naming": 0}
+    out.append(dict(sel, hg=True, names=["A", "B"], w=2, bybin=False, **none))             # nested gene extents
+    out.append(dict(sel, hg=True, names=["A", "C"], w=2, bybin=False, **none))             # two chromosomes
+    out.append(dict(sel, hg=True, names=["A"], w=0, bybin=True, **none))                   # --by-bin -g
+    out.append(dict(sel, hg=True, names=[], w=5, bybin=False, **dict(none, rk="range", rtext=True, rhs=True, rs=5, rhe=True, re=35)))
+    hm = {"op": "heatmap", "bybin": False, "vertical": False, "naming": 0}
+    long_ = [[1, 0, 100, ["A"], 4], [1, 100, 200, ["A"], 4], [2, 0, 50, ["B"], -4]]
+    short = [[1, 0, 40, ["A"], 2], [1, 40, 60, ["A"], 1], [2, 0, 30, ["B"], -2]]
+    out.append(dict(hm, samples=[[False, long_], [False, short]], **none))                  # the last sample ends earlier
+    out.append(dict(hm, samples=[[False, short], [False, long_]], **none))
+    bw = {"op": "binwise", "a": bins, "hsg": False, "sg": [], "hv": True, "naming": 0}
+    out.append(dict(bw, va=[[1, 3, 4, 32], [1, 5, 6, 40], [1, 22, 23, 50]]))               # two variants in one bin
+    out.append(dict(bw, va=[[1, 0, 1, 32], [1, 10, 11, 40], [1, 45, 46, 50]]))             # at bin starts / in the last bin
+    return out
+
+
+# ------------------------------------------------------------------------------------------------ run
+def _bump_boundaries(ctx, rec):
+    op = rec["op"]
+    if "rk" in rec and rec["rk"] == "range":
+        if not rec["rhs"] and not rec["rhe"]:
+            ctx.bump("region_dash")
+        elif not rec["rhs"]:
+            ctx.bump("region_open_start")
+        elif not rec["rhe"]:
+            ctx.bump("region_open_end")
+        else:
+            ctx.bump("region_closed")
+    if op == "select":
+        if rec["bybin"]:
+            ctx.bump("select_by_bin")
+        if rec["hg"] and not [n for n in rec["names"] if n]:
+            ctx.bump("select_empty_gene_list")
+        if rec["hg"] and len([n for n in rec["names"] if n]) > 1:
+            ctx.bump("select_several_genes")
+        if not rec["hb"]:
+            ctx.bump("select_without_bins")
+    if op in ("binwise", "select") and rec.get("hv") and rec["va"] and rec.get("a"):
+        starts = {(b[0], b[1]) for b in rec["a"]}
+        if any((v[0], v[1]) in starts for v in rec["va"]):
+            ctx.bump("variant_at_bin_start")
+        own = [next((k for k, b in enumerate(rec["a"]) if b[0] == v[0] and b[1] <= v[1] < b[2]), None) for v in rec["va"]]
+        if any(x is not None and x == y for x, y in zip(own, own[1:])):
+            ctx.bump("variants_share_bin")
+        if any(x is None for x in own):
+            ctx.bump("variant_outside_bins")
+    if op == "heatmap":
+        if rec["bybin"]:
+            ctx.bump("heatmap_by_bin")
+        if any(s[0] for s in rec["samples"]) and any(not s[0] for s in rec["samples"]):
+            ctx.bump("heatmap_bins_and_segments")
+        ends = [{c: max(r[2] for r in s[1] if r[0] == c) for c in {r[0] for r in s[1]}} for s in rec["samples"]]
+        if len(ends) > 1 and any(ends[-1].get(c, 0) < e.get(c, 0) for e in ends[:-1] for c in e if c in ends[-1]):
+            ctx.bump("heatmap_last_sample_ends_earlier")
+    if op in ("genes_by_name", "select", "genes_by_range", "diagram") and any(len(b[3]) > 1 for b in rec.get("a", [])):
+        ctx.bump("multi_name_gene_label")
+    if op == "from_label" and rec["err"]:
+        ctx.bump("label_rejected")
+    if rec.get("err"):
+        ctx.bump("error_outcomes")
+
+
+def run(ctx: Ctx):
+    _merge_pending(ctx)
+    thorough = ctx.tier == "thorough"
+    ctx.rule = ("direction 1: every input enumerated by MC_PlotData in the scopes listed under notes (label texts over "
+                "{c,1,0,:,-,blank,.} up to 4 characters; sorted disjoint bin tables with derived segments/variants x every "
+                "region form x -g option x width/by-bin mode; ...) replayed into cnvkit; direction 2: seeded random tables "
+                "(1-3 chromosomes, up to 12 bins each, gene runs, tiling and non-tiling segments, variants sharing bins / "
+                "at bin starts / in gaps), region forms relative to the data, plus the documented examples.  A case is "
+                "distinct by its whole encoded input; non-trivial when it has at least one table row or a non-empty text.")
+    small = ["from_label", "unpack_range", "roundtrip", "repeat_slices", "seg_color", "dividers"]
+    tables = ["chrom_sizes", "region_to_bins", "simple", "segs_to_bins", "genome_layout", "binwise", "genes_by_name",
+              "genes_by_range", "seg_vafs"]
+    inputs = []
+    if thorough:
+        inputs += mc_inputs(ctx, "small", small, 3, 1, 2, True)
+        inputs += mc_inputs(ctx, "tables", tables, 3, 2, 2, True, naming=1)
+        inputs += mc_inputs(ctx, "tables3", ["region_to_bins", "binwise", "genes_by_range", "simple"], 4, 1, 3, True)
+        inputs += mc_inputs(ctx, "diagram", ["diagram"], 3, 2, 2, True)
+        inputs += mc_inputs(ctx, "select1", ["select"], 3, 1, 2, True, timeout=3000)
+        inputs += mc_inputs(ctx, "select2", ["select"], 3, 2, 2, False, naming=2, timeout=3000)
+        inputs += mc_inputs(ctx, "select3", ["select"], 4, 1, 3, False, timeout=3000)
+        inputs += mc_inputs(ctx, "heatmap", ["heatmap"], 3, 2, 2, False, timeout=3000)
+    else:
+        inputs += mc_inputs(ctx, "small", small, 3, 1, 2, True)
+        inputs += mc_inputs(ctx, "tables", tables + ["diagram"], 2, 2, 2, True, naming=1)
+        inputs += mc_inputs(ctx, "tables1", ["region_to_bins", "binwise", "genes_by_range"], 3, 1, 2, True)
+        inputs += mc_inputs(ctx, "select1", ["select"], 2, 1, 2, True)
+        inputs += mc_inputs(ctx, "select2", ["select"], 2, 2, 2, False, naming=2)
+        inputs += mc_inputs(ctx, "heatmap", ["heatmap"], 2, 2, 2, False)
+    n_mc = len(inputs)
+    ctx.exhaustive = ("MC_PlotData scopes " + ", ".join(k for k in ctx.notes if k.startswith("scope-"))
+                      + " -- every dumped input replayed")
+    extra = structured_inputs() + random_inputs(ctx, 2500 if thorough else 260)
+    t_exec = time.time()
+    recs = ctx.execute(execute, inputs + extra)
+    ctx.notes["exec_wall_s"] = round(time.time() - t_exec, 1)
+    for rec in recs:
+        nontrivial = any(isinstance(v, list) and v for k, v in rec.items() if k in ("a", "sg", "va", "t", "text", "samples",
+                                                                                      "sizes", "vals", "chrom"))
+        ctx.count_input([rec["op"], json.dumps({k: rec[k] for k in sorted(rec) if k in _INPUT_KEYS}, sort_keys=True)],
+                        nontrivial=nontrivial or rec["op"] in ("seg_color", "cvg2rgb"))
+        _bump_boundaries(ctx, rec)
+    for rec in (recs[0], recs[n_mc // 2], recs[n_mc], recs[-1], recs[-7]):
+        ctx.sample(rec)
+    ctx.validate(TRACE, recs, batch=40000)
+    ctx.notes["direction2_records"] = len(extra)
+    ctx.notes["pending_findings"] = [e["id"] for e in PENDING_FINDINGS]
+    ctx.trusted_base = ["TLC 1.8 evaluation of spec/PlotData.tla (with Ranges.tla, Intervals.tla, Text.tla)",
+                        "harness construction of CopyNumArray / VariantArray objects and projection of results (_x05ops.py)",
+                        "stub Axes / pyplot / reportlab objects recording calls; recorders in place of genome_scatter, "
+                        "chromosome_scatter, build_chrom_diagram",
+                        "rounding of observed floats to integers in stated units (1/1000 positions, 1e-6 colours and Mb, 1/840 "
+                        "variant positions)", "JSON encoding (ints < 2^31)"]
+    ctx.assumptions = ["tables are sorted, positive-width, disjoint within a chromosome (premise; other records are out_of_scope)",
+                       "range texts are ASCII with digit runs of at most 9 characters",
+                       "by-bin selection is judged for width 0 only (the rescaling width / bp_per_bin is float arithmetic and "
+                       "undocumented)",
+                       "the gene-metrics kernels behind `diagram` (gene_metrics_by_gene / _by_segment, squash_genes) are "
+                       "uninterpreted: their recorded outputs are part of the record (they are C16's subject)"]
+
+
+_INPUT_KEYS = {"text", "keep", "kind", "tc", "ts", "te", "chrom", "s", "e", "a", "mb", "sizes", "hp", "pad", "along", "rk", "rtext",
+               "rc", "rhs", "rs", "rhe", "re", "hsg", "sg", "hv", "va", "t", "vals", "k", "desat", "names", "c", "hs", "he", "hb",
+               "hg", "w", "bybin", "ck", "pref", "hcn", "cn", "hal", "cn1", "cn2", "bright", "thr8", "minp", "labels", "samples",
+               "vertical", "naming"}
+
+
+def replay(ctx, doc):
+    _merge_pending(ctx)
+    rec = doc["record"]
+    inp = {k: v for k, v in rec.items() if k in _INPUT_KEYS or k == "op"}
+    if rec["op"] == "diagram":
+        inp.update(km=[], sq=[])
+    doc = dict(doc, record=inp)
+    return generic_replay(ctx, doc, execute, TRACE)
